@@ -252,7 +252,7 @@ def check(run):
                 "Non-trivial = >= 3 handler invocations; distinct by JSON. Plus 150 FSM cases with exit "
                 "actions sending to their own FSM (model of C03) and 4 directed loops through library "
                 "blocks (Counter/OutputFunc.on_success, Input ping-pong, Counter/Repeat, Input/OutputFunc).")
-    cases = [gen_case(run.rng) for _ in range(700 if run.tier == 'quick' else 8000)]
+    cases = [gen_case(run.rng) for _ in range(700 if run.tier == 'quick' else 24000)]
     cases += list(gen_small_exhaustive())
     for c in cases:
         run.count('nblocks=%d' % len(c['blocks']))
@@ -365,7 +365,7 @@ def check_fsm_guard(run):
     spec = c03.C03()
     cases = []
     rng = run.rng
-    while len(cases) < (150 if run.tier == 'quick' else 1500):
+    while len(cases) < (150 if run.tier == 'quick' else 4000):
         c = c03.gen_case(rng, nstates=rng.choice([2, 3]))
         ins = c['inst']
         st = rng.choice(c['def']['states'])
